@@ -703,7 +703,7 @@ def run(ctx):
         "run on the accepted inputs only (C27_incremental_eq_batch; an uncaught runtime error ends that input only, effects "
         "before it persist); a rejected input leaves methods, constants, named types, classes, locals, declared types, the compiler's slot table and "
         "the VM state unchanged and the rest of the session is the same with or without it (C27_rollback, "
-        "C27_rejected_no_trace). The model mirrors the code WITH fixes/C27-*.patch; for CheckSource as found the same model with "
+        "C27_rollback_types: type expressions denote the same before and after, C27_rejected_no_trace). The model mirrors the code WITH fixes/C27-*.patch; for CheckSource as found the same model with "
         "fx=false refutes both (C27_rollback_refuted, C27_incremental_refuted: early failure leaves the namespace-definition "
         "compiler in Checker.compiler). C27_frame_audit (vm_compute, re-proved every run on the table regenerated from "
         "the Go AST): every field of `type Checker struct` has a class (restored / reset by CheckSource / reset by CheckProgram / "
